@@ -143,19 +143,21 @@ type SpecDB struct {
 	Opaque  map[string]bool // struct types forced opaque
 	Files   []string
 	FieldCalls map[string]string // "pkg.Type.field" -> function key called through the field
+	NonNilGlobalPkgs map[string]bool
 }
 
 func newSpecDB() *SpecDB {
 	return &SpecDB{
 		Funcs: map[string]*FuncSpec{}, Ifaces: map[string]*FuncSpec{}, Preds: map[string]*PredSpec{},
 		Funs: map[string]*FunSpec{}, Ghosts: map[string]*GhostSpec{}, Opaque: map[string]bool{},
-		FieldCalls: map[string]string{},
+		FieldCalls: map[string]string{}, NonNilGlobalPkgs: map[string]bool{},
 	}
 }
 
 var topKeywords = map[string]bool{
 	"pred": true, "fun": true, "ghost": true, "lock": true, "func": true, "interface": true,
 	"lemma": true, "pure": true, "axiom": true, "import": true, "ext": true, "opaque": true, "field": true,
+	"nonnil-globals": true,
 }
 
 var subKeywords = map[string]bool{
@@ -319,6 +321,9 @@ func expandFuncKey(name, pkgPath string, imports map[string]string) string {
 
 func expandTypeKey(name, pkgPath string, imports map[string]string) string {
 	name = strings.TrimPrefix(strings.TrimSpace(name), "*")
+	if pkgPath == "" && !strings.Contains(name, ".") {
+		return name
+	}
 	if j := strings.Index(name, "."); j >= 0 {
 		if p, ok := imports[name[:j]]; ok {
 			return p + "." + name[j+1:]
@@ -352,6 +357,8 @@ func (db *SpecDB) loadSpecFile(path, pkgPath string, assumed bool) error {
 			imports[f[0]] = f[1]
 		case "opaque":
 			db.Opaque[expandTypeKey(d.text, pkgPath, imports)] = true
+		case "nonnil-globals":
+			db.NonNilGlobalPkgs[strings.TrimSpace(d.text)] = true
 		case "field":
 			// field T.f calls <funckey>
 			f := strings.Fields(d.text)
